@@ -22,3 +22,8 @@ Proof.
     by (vm_compute; reflexivity).
   intros f Hf. rewrite forallb_forall in H. apply Bool.eqb_prop. apply H. exact Hf.
 Qed.
+
+(** file.rs StorageResolver.chain carries the ThreadId (the guard is per thread): the interleaving theorem
+    C13_per_thread_chain is about [per_thread c = true] *)
+Lemma chain_table : cache_chain_per_thread = true.
+Proof. vm_compute. reflexivity. Qed.
